@@ -121,7 +121,9 @@ CtlLen(typ) == IF typ = "ku" THEN 5 ELSE 2                      \* KeyUpdate mes
 (* A record: typ app|ku|close|fatal, (ep, seq) it was protected under,     *)
 (*   plaintext length as an interval lo..hi (exact when lo = hi; block     *)
 (*   padding hides it on the wire), the Write call it belongs to           *)
-(*   (stream offsets wbeg..wend, idx-th of cnt records), req (KeyUpdate    *)
+(*   (stream offsets wbeg..wend, idx-th of cnt records, pre = sum of the   *)
+(*   lower bounds of the earlier records of that call: wbeg + pre is where *)
+(*   the record starts when lengths are exact), req (KeyUpdate             *)
 (*   update_requested), mut (altered in flight).                           *)
 (***************************************************************************)
 InitLive(q) ==
